@@ -23,7 +23,8 @@ type C13Scenario struct {
 	Consumers      [][]string  `json:"consumers"` // per consumer: "pop" | "popanyway"; priq: "wait"
 	Producers      [][]pOp     `json:"producers"`
 	ConsumersFirst bool        `json:"consumers_first"`
-	HoldYields     int         `json:"hold_yields"` // priq: yields between the signal and the Pop
+	HoldYields     int         `json:"hold_yields"`   // priq: yields between the signal and the Pop
+	CloseWaiters   int         `json:"close_waiters"` // pipe/mux, pipe/mq: goroutines blocked in WaitClose, which Close must release
 }
 
 func drawC13(rt *rapid.T) interface{} {
@@ -79,20 +80,25 @@ func drawC13(rt *rapid.T) interface{} {
 	}
 	sc.ConsumersFirst = rapid.Bool().Draw(rt, "consfirst")
 	sc.HoldYields = rapid.IntRange(0, 2).Draw(rt, "hold")
+	if sc.Kind == KMux || sc.Kind == KMQ {
+		sc.CloseWaiters = rapid.IntRange(0, 2).Draw(rt, "closewaiters")
+	}
 	sc.Knobs = hx.DrawKnobs(rt, nil)
 	return sc
 }
 
 type c13State struct {
-	q       Queue
-	kind    string
-	added   map[int]bool
-	popped  map[int]bool
-	length  int // successful adds - successful pops (cond queues without Len)
-	closed  bool
-	cons    []*simrt.Task
-	holding int          // priq: consumers between a wait-channel receive and the end of their Pop
-	waiting map[int]bool // priq: consumers inside their wait on WaitCh() (blocked, or woken and about to hold)
+	q               Queue
+	kind            string
+	added           map[int]bool
+	popped          map[int]bool
+	length          int // successful adds - successful pops (cond queues without Len)
+	closed          bool
+	closedOrClosing bool // somebody has invoked Close / TryClose
+	cons            []*simrt.Task
+	holding         int // priq: consumers between a wait-channel receive and the end of their Pop
+	closeWaiters    []*simrt.Task
+	waiting         map[int]bool // priq: consumers inside their wait on WaitCh() (blocked, or woken and about to hold)
 }
 
 func runC13(t *testing.T, sci interface{}, keepLog bool) *hx.Outcome {
@@ -127,6 +133,14 @@ func runC13(t *testing.T, sci interface{}, keepLog bool) *hx.Outcome {
 			for _, c := range st.cons {
 				if c.InAPI() && c.Blocked() {
 					blocked++
+				}
+			}
+			if st.closed {
+				for _, w := range st.closeWaiters {
+					if w.InAPI() && w.Blocked() {
+						s.Fail("close-leaves-waiter-blocked", "%s: queue is closed (Close returned) but a goroutine is still blocked in WaitClose", sc.Kind)
+						return
+					}
 				}
 			}
 			if blocked == 0 {
@@ -230,6 +244,25 @@ func runC13(t *testing.T, sci interface{}, keepLog bool) *hx.Outcome {
 			})
 			st.cons = append(st.cons, tk)
 		}
+		if wc, ok := st.q.(WaitCloser); ok {
+			for wi := 0; wi < sc.CloseWaiters; wi++ {
+				wi := wi
+				st.closeWaiters = append(st.closeWaiters, simrt.GoNamed(fmt.Sprintf("closewaiter%d", wi), func() {
+					me := simrt.Cur()
+					me.EnterAPI("WaitClose")
+					err := wc.WaitClose(hx.NewCtx("waitclose"))
+					me.ExitAPI()
+					s.Logf("closewaiter%d -> %v", wi, err)
+					if err != nil {
+						s.Fail("waitclose-error", "WaitClose with a live context returned %v", err)
+					}
+					if !st.closedOrClosing {
+						s.Fail("waitclose-returned-before-close", "WaitClose returned although nobody had called Close")
+					}
+					s.Count("close-waiter-released")
+				}))
+			}
+		}
 		if sc.ConsumersFirst {
 			hx.WaitBlockedOrDone(s, st.cons...)
 			nb := 0
@@ -261,9 +294,11 @@ func runC13(t *testing.T, sci interface{}, keepLog bool) *hx.Outcome {
 					case "addpriorctrl":
 						code = st.q.AddPriorCtrl(op.V)
 					case "close":
+						st.closedOrClosing = true
 						st.q.Close()
 						code = "done"
 					case "tryclose":
+						st.closedOrClosing = true
 						if st.q.TryClose() {
 							code = "true"
 						} else {
@@ -292,12 +327,14 @@ func runC13(t *testing.T, sci interface{}, keepLog bool) *hx.Outcome {
 		} else {
 			me := simrt.Cur()
 			me.EnterAPI("Close")
+			st.closedOrClosing = true
 			st.q.Close()
 			me.ExitAPI()
 			st.closed = true
 			s.Logf("main close")
 		}
 		hx.WaitDone(s, st.cons...)
+		hx.WaitDone(s, st.closeWaiters...)
 	}
 
 	res := hx.RunSim(t, sc.Knobs.Config(keepLog, 20000), setup, main)
